@@ -11,7 +11,8 @@ KF = 'KF-C08-iterator-filter-past-end'
 
 def queries(tier, kfs):
     qs = []
-    kw = dict(safety=True, want='safety', timeout=900)
+    kw = dict(safety=True, want='safety', timeout=900 if tier == 'quick' else 3600)
+    rk = dict(solver='cadical', extra=['--slice-formula'])   # memory-safety obligations do not depend on the floating-point values
     # node iterators (real profile grid)
     for (l, r, f, d) in ((1, 1, 1, 0), (1, 1, 0, 1), (0, 2, 2, 0), (3, 3, 3, 1), (1, 0, 255, 0), (0, 0, 1, 1)):
         qs.append(Query('iter.l%d.r%d.f%d.d%d' % (l, r, f, d), 'iter.cpp', 'c17_iter.c', dict(FSV_N=4), dict(N=4, LEFT=l, RIGHT=r, FILTER=f, DIR=d, BASE=0),
@@ -22,17 +23,17 @@ def queries(tier, kfs):
         if mk is not None:
             hd['MASKBITS'] = mk
         qs.append(Query('single_router.profile%d.bl%x.t%d' % (n, bl, thr), 'router.cpp', 'c04.c', dict(FSV_GRID=0, FSV_N=n, FSV_D=2, FSV_CACHE=1), hd,
-                        unwind=16, diff=0, bounds=dict(unit='single_flow_router', N=n, BL=bl, mask=mk, threads=thr), **kw))
-    for t in ('raster_rook_2x2_fixed',) + (() if tier == 'quick' else ('raster_queen_2x3_fixed', 'raster_rook_3x3_fixed', 'mesh_fan5')):
+                        unwind=16, diff=0, bounds=dict(unit='single_flow_router', N=n, BL=bl, mask=mk, threads=thr), **rk, **kw))
+    for t in ('raster_rook_2x2_fixed',) + (() if tier == 'quick' else ('raster_rook_2x3_hloop', 'raster_queen_2x2_bloop', 'mesh_quad4')):
         from fsv import table_info
         n, d = table_info(t)
         qs.append(Query('single_router.%s' % t, 'router.cpp', 'c04.c', dict(FSV_GRID=1, FSV_N=n, FSV_D=d, FSV_CACHE=1),
                         dict(N=n, D=d, GRID=1, BLMASK=1, USE_MASK=0, TABLE='"%s.h"' % t, THREADS=0), unwind=max(16, n * (d + 1) + 3), diff=0,
-                        bounds=dict(unit='single_flow_router', table=t), **kw))
+                        bounds=dict(unit='single_flow_router', table=t), **rk, **kw))
         if tier != 'quick':
           qs.append(Query('multi_router.%s' % t, 'router.cpp', 'c05.c', dict(FSV_GRID=1, FSV_N=n, FSV_D=d),
                         dict(N=n, D=d, GRID=1, BLMASK=1, USE_MASK=0, TABLE='"%s.h"' % t, PEXP=1, ROUNDS=1, NO_WEIGHTS=1), unwind=max(16, n * (d + 1) + 3), diff=0,
-                        bounds=dict(unit='multi_flow_router', table=t), **kw))
+                        bounds=dict(unit='multi_flow_router', table=t), **rk, **kw))
     # worker-pool partition arithmetic and eroder setter
     for p in (1, 4, 16):
         qs.append(Query('blocks.pool%d' % p, 'pool_blocks.cpp', 'c11_blocks.c', {}, dict(POOL=p, RANGE=4096, MINMAX=8192), unwind=18, solver='cadical', shim=False,
